@@ -82,8 +82,9 @@ JUNK_ACL = ["foo bar", "permit ip any", "permit tcp any any eq bogusname", "perm
             "ignore", "description", "statistics", "descriptions of things", "statistics-per-entry", "ignored-by-policy any", "ignoreX y",
             "remarkable text", "permitted ip any any", "denyip any any",
             "ip access-list extended OTHER", "ip access-list resequence 10 10", "ip access-list OTHER", "object-group network G1",
-            "interface Ethernet1/1", "ip access-group A1 in", "exit", "end"]
-JUNK_MEMBER = ["foo", "10.0.0.256 255.255.255.0", "host", "10.0.0.0/33", "range 10.0.0.1 10.0.0.5", "10 bar baz", "10.0.0.1 255.0.255.0"]
+            "interface Ethernet1/1", "ip access-group A1 in", "exit", "end", "!permit ip any any", "! comment", "!"]
+JUNK_MEMBER = ["foo", "10.0.0.256 255.255.255.0", "host", "10.0.0.0/33", "range 10.0.0.1 10.0.0.5", "10 bar baz", "10.0.0.1 255.0.255.0",
+               "!host 10.0.0.1", "! comment"]
 IGNORABLE = ["statistics per-entry", "description some text", "ignore routable", "statistics x y z"]
 
 
